@@ -118,6 +118,9 @@ class CategoricalDiscretizer(BaseDiscretizer):
 
     @extend_docstring(BaseDiscretizer.fit)
     def fit(self, X: DataFrame, y: Series) -> None:  # pylint: disable=W0222
+        # checking for previous fits before anything is modified
+        self._check_is_not_fitted()
+
         # copying dataframe and checking data before bucketization
         x_copy = self._prepare_data(X, y)
 
@@ -297,6 +300,9 @@ class OrdinalDiscretizer(BaseDiscretizer):
     def fit(self, X: DataFrame, y: Series) -> None:  # pylint: disable=W0222
         if self.verbose:  # verbose if requested
             print(f" - [OrdinalDiscretizer] Fit {str(self.features)}")
+
+        # checking for previous fits before anything is modified
+        self._check_is_not_fitted()
 
         # checking values orders
         x_copy = self._prepare_data(X, y)
@@ -599,6 +605,9 @@ class ChainedDiscretizer(BaseDiscretizer):
 
     @extend_docstring(BaseDiscretizer.fit)
     def fit(self, X: DataFrame, y: Series = None) -> None:  # pylint: disable=W0222
+        # checking for previous fits before anything is modified
+        self._check_is_not_fitted()
+
         # filling nans
         x_copy = self._prepare_data(X, y)
 
